@@ -19,10 +19,10 @@ def check(pid, category, text, note, technique, design_ref, engine, replay=True)
         CHECKS[pid]["replay_cmd_template"] = f"./run {pid} --replay {{path}}"
 
 check("C11", "model_checking",
-      "Every history over a 27-30 letter alphabet of sends, failed sends, acks (stale, foreign, future, u64::MAX), advances, resumes, cancels and waits is executed on the real TransferControl next to an exact reference model: un-merged to depth 5 (quick) / 6 (thorough) and breadth-first with state merging to depth 8 / 10, for windows 0,1,4,5,2^48; the stated invariants are evaluated after every step.",
-      "Deadlines are always expired (blocking is C12). Values below 2^56. BFS merging assumes determinism of the implementation; the un-merged tree is the cross-check.",
-      "explicit-state bounded-exhaustive history enumeration of the real object against a reference model (replay-based BFS + un-merged tree)",
-      "DESIGN.md §5 C11", "mc")
+      "Every history over a 27-30 letter alphabet of sends, failed sends, acks (stale, foreign, future, u64::MAX), advances, resumes, cancels and waits is executed on the real TransferControl next to an exact reference model: un-merged to depth 5 (quick) / 6 (thorough) and breadth-first with state merging to depth 8 / 10, for windows 0,1,4,5,2^48; the stated invariants are evaluated after every step. Concurrent part: loom (DPOR, 3 / 4 preemptions; 2 / 3 for three signalling threads) explores a parked waiter (credit, oversized credit, reconnect) with two or three threads of which at least two cancel with different reasons, raced by acks, resumes and an advance: the waiter's result and the reason read afterwards must be explained by ONE sequential order (first reason wins, permanently).",
+      "Sequential part: deadlines are always expired (blocking is C12). Values below 2^56. BFS merging assumes determinism of the implementation; the un-merged tree is the cross-check. Concurrent part: sequentially consistent interleavings at lock/condvar granularity within the preemption bound.",
+      "explicit-state bounded-exhaustive history enumeration of the real object against a reference model (replay-based BFS + un-merged tree) + loom stateless model checking of concurrent cancels with a linearization oracle",
+      "DESIGN.md §5 C11", "mc+lm")
 check("C13", "model_checking",
       "Every history over a 22-letter alphabet of pushes (data lengths 0,1,2,5; wire overheads 0,1,7), resumes at every boundary class (retained starts, mid-chunk, trailing edge, beyond, evicted, other file), advance, cancel and reconnect waits is executed on the real TransferControl for ring capacities 0,1,5,6,12,2^40; after every step the ring is compared with what was pushed and every accepted resume's replay tail is checked for start, contiguity, byte identity and completeness.",
       "Acceptance is checked in the stated direction only (accepted => allowed). BFS merging as for C11.",
